@@ -324,6 +324,26 @@ func abstractFile(path string) (*ObsFile, error) {
 			of.Types = append(of.Types, ot)
 		}
 	}
+	// methods belong to the closest preceding struct declaration of that name (the file is rendered type by type;
+	// two declarations may generate the same name, which does not compile but must still be abstracted faithfully)
+	pos := map[string][]int{}
+	for k := range of.Types {
+		pos[of.Types[k].Name] = append(pos[of.Types[k].Name], k)
+	}
+	typePos := map[int]token.Pos{}
+	{
+		k := 0
+		for _, d := range f.Decls {
+			if gd, ok := d.(*ast.GenDecl); ok && gd.Tok == token.TYPE {
+				for _, sp := range gd.Specs {
+					if _, ok := sp.(*ast.TypeSpec).Type.(*ast.StructType); ok {
+						typePos[k] = sp.Pos()
+						k++
+					}
+				}
+			}
+		}
+	}
 	for _, d := range f.Decls {
 		fd, ok := d.(*ast.FuncDecl)
 		if !ok {
@@ -333,8 +353,16 @@ func abstractFile(path string) (*ObsFile, error) {
 		if !ok {
 			continue
 		}
-		k, ok := idx[rn]
-		if !ok {
+		if _, ok := idx[rn]; !ok {
+			continue
+		}
+		k := -1
+		for _, cand := range pos[rn] {
+			if typePos[cand] < fd.Pos() {
+				k = cand
+			}
+		}
+		if k < 0 {
 			continue
 		}
 		ot := &of.Types[k]
